@@ -42,6 +42,8 @@ func inBoxTol(p P, box [4]float64, tol float64) bool {
 	return p[0] >= box[0]-tol && p[0] <= box[2]+tol && p[1] >= box[1]-tol && p[1] <= box[3]+tol && p[0] == p[0] && p[1] == p[1]
 }
 
+var c08ret retained
+
 type c08case struct {
 	Box  [4]float64 `json:"box_minx_miny_maxx_maxy"`
 	Ring []P        `json:"ring"`
@@ -75,6 +77,10 @@ func c08ring(c *h.Ctx, r *h.Rand, box [4]float64, ring []P, queries []P) orb.Rin
 	cs := c08case{box, ring}
 	out := clip.Ring(b, pToRing(ring))
 	c.Eval()
+	c08ret.check(c)
+	if out != nil {
+		c08ret.set(out, "clip.Ring")
+	}
 	if out != nil && len(out) == 0 {
 		c.Fail("", "clip.Ring returned an empty non-nil ring", cs)
 	}
